@@ -63,11 +63,14 @@ theorem accepted_names_never_fault (a b : Bytes) (ha : acceptedName a = true) (h
   rw [e1, e2]
   exact compare_no_fault_wf t1 k1 s1 t2 k2 s2 h1 h2 h3 h4
 
-/-- Regenerated from region/info.go: `infoFromCell` refuses a row key whose first comma is missing or
-is also its last one — i.e. exactly the keys with fewer than two commas (`acceptedName` false). -/
+/-- Regenerated from region/info.go: with `i`, `j` the positions of the first and the last comma,
+`infoFromCell` refuses a row key whose first comma is missing or is also its last one — the keys
+with fewer than two commas (`acceptedName` false) — and (fix a867439) one whose id, the part after
+the last comma, does not start with a digit: the location cache's search keys end in `,:` and rely
+on every id sorting below `:`. -/
 theorem meta_row_key_checked_in_source :
     GV.Gen.Exits.metaRowKeyCheck
-      = "i := bytes.IndexByte(cell.Row, ','); i < 0 || bytes.LastIndexByte(cell.Row, ',') == i" := by decide
+      = "i < 0 || j == i || j+1 == len(cell.Row) || cell.Row[j+1] < '0' || cell.Row[j+1] > '9'" := by decide
 
 /-- … and the check is needed: a name with one comma panics against a good one. -/
 example : (compareName [122, 122, 44, 97] [122, 122, 44, 97, 44, 49]).isFault = true := by decide  -- "zz,a" vs "zz,a,1"
